@@ -332,8 +332,10 @@ func (m MatchVarsRE) MatchWithError(r *http.Request) (bool, error) {
 			varStr = fmt.Sprintf("%v", vv)
 		}
 
-		valExpanded := repl.ReplaceAll(varStr, "")
-		if match := val.Match(valExpanded, repl); match {
+		// the actual value is matched as it is: it may be derived from the
+		// request (e.g. a header or query placeholder as key, or a variable set
+		// from one), so it must not be scanned for placeholders a second time
+		if match := val.Match(varStr, repl); match {
 			return match, nil
 		}
 	}
